@@ -19,13 +19,13 @@ def parseFn : Nat → List String → Option (Fn Rat × List String)
   | fuel + 1, toks =>
     match toks with
     | "l1" :: lam :: g :: r => do some (.l1 (← parseRat lam) (← optList g), r)
-    | "l1l2" :: d :: lam :: g :: r => do
-        some (.l1l2 (← d.toNat?) (← parseRat lam) (← optList g), r)
+    | "l1l2" :: pw :: d :: lam :: g :: r => do
+        some (.l1l2 (← parseRatList pw) (← d.toNat?) (← parseRat lam) (← optList g), r)
     | "l2" :: lam :: g :: r => do some (.l2 (← parseRat lam) (← optList g), r)
     | "l2sq" :: lam :: g :: r => do some (.l2sq (← parseRat lam) (← optList g), r)
     | "ccl1" :: lam :: g :: r => do some (.ccl1 (← parseRat lam) (← optList g), r)
-    | "ccl1l2" :: d :: lam :: g :: r => do
-        some (.ccl1l2 (← d.toNat?) (← parseRat lam) (← optList g), r)
+    | "ccl1l2" :: pw :: d :: lam :: g :: r => do
+        some (.ccl1l2 (← parseRatList pw) (← d.toNat?) (← parseRat lam) (← optList g), r)
     | "ccl2sq" :: lam :: g :: r => do some (.ccl2sq (← parseRat lam) (← optList g), r)
     | "box" :: lo :: hi :: r => do some (.box (← optList lo) (← optList hi), r)
     | "const" :: r => some (.const, r)
@@ -35,7 +35,13 @@ def parseFn : Nat → List String → Option (Fn Rat × List String)
     | "simplex" :: a :: d :: r => do some (.simplex (a == "1") (← parseRat d), r)
     | "sumc" :: a :: s :: r => do some (.sumc (a == "1") (← parseRat s), r)
     | "huber" :: g :: r => do some (.huber (← parseRat g), r)
-    | "huberg" :: d :: g :: r => do some (.huberG (← d.toNat?) (← parseRat g), r)
+    | "huberg" :: pw :: d :: g :: r => do
+        some (.huberG (← parseRatList pw) (← d.toNat?) (← parseRat g), r)
+    | "comp" :: mu :: m :: r => do
+        let mu ← parseRat mu
+        let m ← parseRatMat m
+        let (f, r') ← parseFn fuel r
+        some (.comp f m mu, r')
     | "klcc" :: lam :: g :: r => do some (.klcc (← parseRat lam) (← optList g), r)
     | "trans" :: y :: r => do
         let y ← parseRatList y
@@ -83,6 +89,7 @@ def doProx (l : Line) : Option String := do
     | _, _ => none
   if w.length ≠ x.length then none
   else if !f.ok sig x.length then some "unsupported"
+  else if let some e := f.err then some e
   else
     let E : Env Rat := { sqrt := ratSqrt, eps := eps }
     some s!"ok p={showRatList (f.prox E w sig x)}"
